@@ -48,9 +48,9 @@ type Case struct {
 	Pre string `json:"pre,omitempty"`
 	// Own is what the handler itself does to the response before it returns:
 	// "", flush, wh (WriteHeader 202), w (Write "own:"), cancel (the request context is cancelled).
-	Own    string `json:"own,omitempty"`
+	Own string `json:"own,omitempty"`
 	// Env: "" (development, the default), production, test.
-	Env string `json:"env,omitempty"`
+	Env    string `json:"env,omitempty"`
 	Method string `json:"method"`
 }
 
@@ -241,6 +241,7 @@ func checkCase(c Case) (out evid.Outcome) {
 		out.Classes = append(out.Classes, "env:"+c.Env)
 	}
 	var rw flamego.ResponseWriter
+	var cur flamego.Context
 	reqCtx, cancelReq := gocontext.WithCancel(gocontext.Background())
 	defer cancelReq()
 	h, returned := c.handler(func() {
@@ -256,10 +257,14 @@ func checkCase(c Case) (out evid.Outcome) {
 			// client that went away); what the handler returns is rendered all the
 			// same - return values are rendered first, then the chain stops
 			cancelReq()
+		case "next":
+			// the handler has the rest of the chain run first (which writes
+			// nothing) and returns its value afterwards
+			cur.Next()
 		}
 	})
 	f := flamego.NewWithLogger(io.Discard)
-	f.Use(func(ctx flamego.Context) { rw = ctx.ResponseWriter() })
+	f.Use(func(ctx flamego.Context) { rw = ctx.ResponseWriter(); cur = ctx })
 	markerRan := false
 	marker := func() { markerRan = true }
 	var customGot []reflect.Value
@@ -399,7 +404,11 @@ func checkCase(c Case) (out evid.Outcome) {
 	if len(spy.Log) > 0 && spy.Log[0][:2] != "WH" {
 		return evid.Fail("body-before-status", "calls on the underlying writer: %v for %s", spy.Log, desc)
 	}
-	if c.Own == "cancel" {
+	if c.Own == "next" {
+		if !markerRan && c.Pos != "action" {
+			return evid.Fail("continuation:"+c.Shape, "the handler called Next() and the following handler did not run, for %s", desc)
+		}
+	} else if c.Own == "cancel" {
 		if markerRan {
 			return evid.Fail("continuation:"+c.Shape, "the following handler ran although the request context had been cancelled, for %s", desc)
 		}
@@ -445,7 +454,9 @@ func checkCase(c Case) (out evid.Outcome) {
 	if c.Own != "" {
 		out.Classes = append(out.Classes, "own:"+c.Own)
 		nt = true
-		out.Classes = append(out.Classes, "handler-wrote-before-returning")
+		if c.Own != "cancel" && c.Own != "next" {
+			out.Classes = append(out.Classes, "handler-wrote-before-returning")
+		}
 	}
 	out.Classes = append(out.Classes, "shape:"+c.Shape)
 	out.NonTrivial = nt
@@ -479,7 +490,7 @@ func genCase(t *rapid.T) Case {
 		Custom: []string{"", "", "", "app", "request"}[rapid.IntRange(0, 4).Draw(t, "custom")],
 		Method: []string{"GET", "GET", "GET", "HEAD"}[rapid.IntRange(0, 3).Draw(t, "method")],
 		Pre:    []string{"", "", "emptystr", "nilerr", "emptybytes"}[rapid.IntRange(0, 4).Draw(t, "pre")],
-		Own:    []string{"", "", "", "flush", "wh", "w", "cancel"}[rapid.IntRange(0, 6).Draw(t, "own")],
+		Own:    []string{"", "", "", "flush", "wh", "w", "cancel", "next"}[rapid.IntRange(0, 7).Draw(t, "own")],
 		Env:    []string{"", "", "production", "test"}[rapid.IntRange(0, 3).Draw(t, "env")],
 	}
 	if rapid.IntRange(0, 9).Draw(t, "anycode") == 0 {
